@@ -10,10 +10,10 @@ def run(ctx):
     ok_go, ok_drv = seqlib.build_and_prove(ctx, MODULE)
     if ok_go:
         if ctx.tier == "thorough":
-            meta = ["-workloads", "24", "-ops", "60", "-images", "1500"]
+            meta = ["-workloads", "24", "-ops", "60", "-images", "1500", "-second", "6"]
             data = ["-workloads", "9", "-ops", "60", "-images", "800"]
         else:
-            meta = ["-workloads", "4", "-ops", "40", "-images", "220"]
+            meta = ["-workloads", "4", "-ops", "40", "-images", "220", "-second", "2"]
             data = ["-workloads", "3", "-ops", "40", "-images", "120"]
         every = lambda label, key: True
         crashlib.run_crash(ctx, ok_drv, "meta", meta, every)
@@ -28,10 +28,10 @@ def run(ctx):
         "reference state after k operations, with every stable-acknowledged visible operation among the k; the recovered server must keep serving",
         "workloads of all mutating procedures (namespace-heavy and write-stability mixes; all three stability levels; multi-block writes; truncations; removal of 3 MB files freed in the "
         "background) on a recording disk; crash points = every prefix of the event stream plus prefixes with subsets of the un-barriered writes lost (single writes dropped, only one kept, "
-        "random subsets); images evenly sampled when the trace offers more than the budget",
+        "random subsets); images evenly sampled when the trace offers more than the budget; repeated crashes: the server is restarted on sampled crash images on a recording disk, serves more operations, and is crashed again",
         ["go-journal (wal, obj, jrnl, buf, lockmap, alloc) is a dependency outside /repo: its WAL protocol is MODELLED (M9) and tied by the recorded-trace check, not verified",
          "the disk model: a barrier makes all earlier writes durable; a crash keeps durable writes and any subset of later ones; block writes are atomic",
          "the file-system layer (one journal transaction per RPC, bitmaps in the same transaction, recovery before any read) is tied by the crash-image oracle on sampled workloads"],
         pending=["group_is_txn_prefix: a theorem that a prefix of updates ending at a header-1 value is a prefix of whole transactions (memLog append model)",
-                 "second crash after recovery-and-more-operations in the harness (the theorem covers it; the oracle samples only single crashes plus clean restarts)"],
+                 ],
         partial=["file-system layer above the journal: oracle on sampled workloads and crash points, not a theorem"])
